@@ -46,7 +46,7 @@ META = {
                     ('src/geophires_x_schema_generator/__init__.py', 'GeophiresXSchemaGenerator.get_result_json_schema'),
                     ('src/geophires_x_schema_generator/__init__.py', '_get_min_and_max'),
                     ('src/geophires_x_schema_generator/__init__.py', '_fix_floating_point_error'),
-                    ('src/geophires_x/Parameter.py', 'ReadParameter')],
+                    ('src/geophires_x/Parameter.py', 'ReadParameter'), ('src/geophires_x/Parameter.py', 'ConvertUnits')],
     'exhaustive': True,
 }
 GENERATORS = (paramtable.gen_paramtable, schematables.gen_schematables)
@@ -414,10 +414,51 @@ def fw_pool(fn, jobs):
         return list(ex.map(fn, jobs))
 
 
+def unit_enforce_layer(ctx):
+    """parameters declared with CurrentUnits != PreferredUnits: the schema publishes CurrentUnits and states the bounds in
+    it - values written in the published unit AND in other units of the family are accepted-and-used / rejected exactly
+    as the published bounds say for the converted value (conversion by pint, as data)"""
+    rows, d = tables(ctx)
+    model = paramtable.dummy_model()
+    objs, idx = dict(paramtable.sources(model)), paramtable.index()
+    for prog, (ck, gk, _, _, _) in PROGRAMS.items():
+        cases, skipped = [], 0
+        for j, e in enumerate(d[gk]):
+            rs = [r for r in rows if r['cls'] in d[ck] and r['name'] == e['name'] and r['kind'] == 'KFloat']
+            if not rs or e['type'] != 'number' or all(r['units'] == r['pref'] for r in rs) or len({(r['min'], r['max'], r['units']) for r in rs}) > 1:
+                continue
+            for r in rs:
+                p = objs[r['cls']].ParameterDict[r['name']]
+                for tag, s, c, unit in rp.unit_probes(p, r, ctx.n(2, 6), with_current=True):
+                    obs = rp.observe_reader(p, r['name'], s, model)
+                    if obs['o'][0] == 'C':
+                        skipped += 1          # unit text pint / LookupUnits cannot handle (e.g. '%'): C06
+                        continue
+                    cases.append(dict(j=j, i=idx[(r['cls'], r['name'])], v=c, obs=obs, tag=tag, s=s, cls=r['cls'], name=r['name']))
+
+        def body(lo, hi):
+            items = ';\n '.join(f'({c["j"]}%nat, {c["i"]}%nat, {qconv.q(c["v"])}, {rp.outcome_lit(c["obs"]["o"])}, '
+                                + ('None' if c['obs']['fin'] is None else f'(Some {qconv.q(c["obs"]["fin"])})') + ')' for c in cases[lo:hi])
+            return f'bad (ecase_ok param_table {gk}) [\n {items}]'
+        badi = fw.kernel_eval(ctx, f'unit-enforce-{prog}', REQ, body, len(cases), shard=400) if cases else []
+        ctx.count('enforce-units', evaluations=len(cases), nontrivial_keys=[(prog, c['cls'], c['name'], c['s']) for c in cases],
+                  parameters={prog: len({c['name'] for c in cases})}, unit_text_not_understood_C06=skipped)
+        for c in cases[:1]:
+            ctx.sample('enforce-units', {k: c[k] for k in ('cls', 'name', 'tag', 's')} | {'converted': float(c['v']), 'observed': rp.show(c['obs'])})
+        for k in badi:
+            c = cases[k]
+            e = d[gk][c['j']]
+            ctx.violate('property', f'enforce-units:{prog}:{c["name"]}:{c["tag"]}',
+                        f'{prog} schema entry {c["name"]!r} publishes units={e["raw"].get("units")!r}, minimum={e["raw"].get("minimum")!r}, '
+                        f'maximum={e["raw"].get("maximum")!r}; {c["cls"]} given {c["s"]!r} (= {float(c["v"])} {e["raw"].get("units")}): {rp.show(c["obs"])}',
+                        inp={'check': 'enforce-units', 'program': prog, 'name': c['name'], 'cls': c['cls'], 'tag': c['tag'], 's': c['s']},
+                        expected='accepted and held as the converted value iff it is within the published bounds', observed=rp.show(c['obs']))
+
+
 def correspondence(ctx, proofs_ok=True):
     paramtable.build_gen(ctx, ('Gen/ParamTable.vo', 'Gen/SchemaTables.vo'))
     import time
-    for layer in (names_layer, fields_layer, committed_layer, result_layer, enforce_layer, list_layer, rst_layer, reports_layer):
+    for layer in (names_layer, fields_layer, committed_layer, result_layer, enforce_layer, list_layer, rst_layer, reports_layer, unit_enforce_layer):
         t = time.time()
         layer(ctx)
         ctx.note(f'{layer.__name__}: {time.time() - t:.1f} s')
@@ -429,11 +470,11 @@ def replay(ctx, data):
         g(ctx)
     paramtable.build_gen(ctx, ('Gen/ParamTable.vo', 'Gen/SchemaTables.vo'))
     layer = {'names': names_layer, 'field': fields_layer, 'committed': committed_layer, 'result-field': result_layer, 'enforce': enforce_layer,
-             'enforce-list': list_layer, 'rst': rst_layer, 'report': reports_layer}[inp['check']]
+             'enforce-list': list_layer, 'rst': rst_layer, 'report': reports_layer, 'enforce-units': unit_enforce_layer}[inp['check']]
     layer(ctx)
     rows, d = tables(ctx)
     name = inp.get('name') or inp.get('field')
-    if inp['check'] in ('names', 'field', 'enforce', 'enforce-list'):
+    if inp['check'] in ('names', 'field', 'enforce', 'enforce-list', 'enforce-units'):
         ck, gk = PROGRAMS[inp['program']][:2]
         print('declarations :', decl_text([r for r in rows if r['cls'] in d[ck] and r['name'] == name]) or 'none')
         print('schema entry :', next((e['raw'] for e in d[gk] if e['name'] == name), 'absent from the generated schema'))
